@@ -113,7 +113,7 @@ class Plane:
         :rtype: bool
 
         """
-        return abs(np.dot(self.n, p) + self.d) < tol
+        return abs(np.dot(self.n, p) + self.d) < tol * max(1, np.linalg.norm(self.n) * np.linalg.norm(p))
     
     def __str__(self):
         """
